@@ -173,6 +173,19 @@ func (r *renderer) literal(s string, pref byte) string {
 	if pref != 0 && r.l.Quote == 2 {
 		q = pref
 	}
+	// an over-escaped quote (odd run of backslashes before it) can only be written inside the other quote kind
+	for i, run := 0, 0; i < len(s); i++ {
+		if s[i] == '\\' {
+			run++
+			continue
+		}
+		if run%2 == 1 && s[i] == '"' {
+			q = '\''
+		} else if run%2 == 1 && s[i] == '\'' {
+			q = '"'
+		}
+		run = 0
+	}
 	var sb strings.Builder
 	sb.WriteByte(q)
 	for i := 0; i < len(s); i++ {
